@@ -848,14 +848,20 @@ def rest_layer_stream(chk, rng):
          "  match docEmitL c ir with",
          "  | .ok t => IO.println s!\"E {i} OK {esc (String.ofList t)}\"",
          "  | .outside w => IO.println s!\"E {i} OUTSIDE {w}\"",
-         "def main : IO Unit := do"]
+         ]
+    body = []
     for i, (ir, cfg, real) in enumerate(cases):
         params = "[" + ", ".join("(%s, %s)" % (_rl_lean_str(n), _rl_param(p)) for n, p in ir["params"].items()) + "]"
         ret = "none" if ir["returns"] is None else "some " + _rl_param(ir["returns"]["return_type"])
         irs = "{ name := some \"F\", doc := %s, params := %s, returns := %s }" % (_rl_lean_str(ir["doc"]), params, ret)
         cfgs = "{ style := .rest, emitDefaultDoc := %s, emitTypes := %s, purposeClass := %s, indentLevel := %d, emitSeparatingTab := %s }" % (
             str(cfg["emit_default_doc"]).lower(), str(cfg["emit_types"]).lower(), str(cfg["purpose"] == "class").lower(), cfg["indent_level"], str(cfg["emit_separating_tab"]).lower())
-        L.append("  run %d %s %s" % (i, cfgs, irs))
+        body.append("  run %d %s %s" % (i, cfgs, irs))
+    # one `do` block per 100 cases (a single block with hundreds of statements exceeds Lean's elaboration depth)
+    chunks = [body[k:k + 100] for k in range(0, len(body), 100)]
+    for k, ch in enumerate(chunks):
+        L += ["def part%d : IO Unit := do" % k] + ch
+    L += ["def main : IO Unit := do"] + ["  part%d" % k for k in range(len(chunks))]
     d = core.VERIF / ".scratch" / ("c02rest_%d" % os.getpid())
     d.mkdir(parents=True, exist_ok=True)
     try:
